@@ -80,9 +80,27 @@ def run(ctx):
     from contracts import fc_args
     descriptor_table(ctx, fc_args, tabs)
     builder_call_sites(ctx)
-    units = fc_args.UNITS
+    units = list(fc_args.UNITS)
+    # the abstract interface of a function-pointer argument is written from the attributes of its parameters (bind_c:
+    # VALUE iff attrs['value']): they get the same defaulting as top-level arguments
+    import copy as _copy
+    from contracts import generate_attrs as _G
+    fp = _copy.copy(_G.check_arg_attrs_fp)
+    fp.prop = "C04"
+    units.append(fp)
+    # "every shared constant table emitted for Fortran has the same values as its C counterpart": enumerations are such
+    # tables (the units of C11: per member, the Fortran parameter and the C enumerator evaluate to the same value)
+    from contracts import ast_enum as _E
+    enum_mons = {}
+    for u in (_E.enum_values, _E.wrapc_enum, _E.wrapf_enum):
+        u2 = _copy.copy(u)
+        u2.prop = "C04"
+        units.append(u2)
+        enum_mons[u2.name] = ("m_enum_e2e", lambda v: None, lambda nm: None, 120)
     mon = ("m_fcagree", lambda v: None, lambda nm: None, 80)
-    ctx.pyvc(units, dict((u.name, mon) for u in units))
+    mons = dict((u.name, mon) for u in units)
+    mons.update(enum_mons)
+    ctx.pyvc(units, mons)
     # bounded stand-in at the property's own observation point (never counted as proved): gfortran's reading of every
     # bind(C) interface against the generated C prototypes, regression corpus + synthetic declaration family
     n = 1500 if ctx.tier == "quick" else 100000
